@@ -16,10 +16,9 @@ ASSUME = [
     "the nodes is gone counts as never made (typical latency is < 50 ms; scenarios whose scheduling-latency probe saw "
     "> 1.5 s are re-run, never judged)",
     "tcp and ws run through the byte proxy (it tells when a stream is gone and which side ended it); quic runs without "
-    "proxy: a node is judged at quiescence only when the connection is certainly gone at the transport level (the other "
-    "node was killed, or reported closed without having closed by its own decision - a node that closes a QUIC "
-    "connection itself does not necessarily take the QUIC connection down); steps that need the proxy (cut, stall, "
-    "cut after N bytes, simultaneous dials) are not run on quic (listed in coverage.not_run_without_proxy)",
+    "proxy: the connection counts as gone when one node reported it closed or a node was killed (a node that ends a "
+    "QUIC connection closes it explicitly, quinn's idle timeout of 5 s is the backstop); steps that need the proxy (cut, "
+    "stall, cut after N bytes, simultaneous dials) are not run on quic (listed in coverage.not_run_without_proxy)",
     "all dials are issued by the scenario driver (no discovery protocols), so 'no new connection' phases are known",
     "protocol channels hold 4096 events: really full channels are explored in the TLC model (capacity 1-2); on real "
     "nodes a protocol that stops polling its TransportService stands in for it",
@@ -151,6 +150,9 @@ def catalogue(ctx):
     KA = {"ka_ms": 300}
     S.append(("keepalive", KA, {}, [c, {"op": "wait_dead"}, qs, rd("A"), {"op": "wait_dead"}, qs]))
     S.append(("keepalive-pi", dict(KA, ping_ms=100, identify=True), {"ping_ms": 100, "identify": True}, [cb, {"op": "wait_dead"}, qs, rd("A"), {"op": "wait_dead"}, qs]))
+    PI = {"ping_ms": 100, "identify": True}
+    S.append(("keepalive-pi-a", dict(KA, **PI), PI, [c, {"op": "wait_dead"}, qs, op("B", "q1"), rd("B"), op("B", "q2"), {"op": "wait_dead"}, qs]))
+    S.append(("force-close-pi", PI, PI, [cb, {"op": "force_close", "n": "A", "q": "q1"}, qs, rd("B"), op("B", "q1"), {"op": "force_close", "n": "B", "q": "q2"}, qs]))
     S.append(("keepalive-after-use", KA, {}, [c, op("A", "q1"), op("B", "q2"), {"op": "wait_dead"}, qs, rd("B"), {"op": "wait_dead"}, qs]))
     # an inbound substream arriving right when A's idle timers expire (permit unavailable race)
     for off in (-12, -4, 0, 4, 10, 18, 30):
